@@ -22,7 +22,9 @@ PROPERTY = "C16"
 MODEL_TARGETS = ["Model/C03Schedule.vo", "Model/C16Matcher.vo", "Model/C16Fits.vo", "Model/C16Enum.vo"]
 RULE = ("matcher: every pair of integer matrices with entries -2..2 of the shapes listed in the evidence (in-Coq "
         "enumeration, product order), plus random pairs up to 4x6 (entries up to 64) built as row combinations / "
-        "perturbations / rank-deficient variants; Template.matches and the checks: template/schedule pairs of the C03 "
+        "perturbations / rank-deficient variants, plus a large-entry family (nearly parallel rows, entries up to 2000) "
+        "whose model/code deviations are classified by the class large_entries_float_tolerance (max |entry| > 300: known "
+        "finding F-C16-2; outside the class exact agreement is required); Template.matches and the checks: template/schedule pairs of the C03 "
         "generator (derived / tiled / random families, broadcast operands, different ranks) plus a predicate family "
         "(non-matching pairs with 1-3 temporal dims and entries of every sign); L2: every yielded schedule "
         "of every generated case. Non-trivial = the two row spaces are equal with different matrices, or the search "
@@ -38,7 +40,8 @@ TRUSTED_BASE = [
 ASSUMPTIONS = [
     "backtrack_fits is proved for results with at least as many dims as the template (class fewer_dims_than_template is the known finding F12)",
     "templates have >= 1 dims and every operand pattern the same number of dims (wf_tmplb); schedules are well-formed (wf_schedb)",
-    "rowspace_eqb is proved sound and complete for rational row-space equality; that numpy's SVD/tolerance code decides the same relation is checked (L1), not proved",
+    "rowspace_eqb is proved sound and complete for rational row-space equality; that numpy's SVD/tolerance code decides the same relation is checked (L1), not proved, "
+    "and is known to fail inside the class large_entries_float_tolerance (F-C16-2: np.allclose's default rtol=1e-5)",
     "element sizes >= 1; exceptions raised inside checks are outside the model",
 ]
 
@@ -153,6 +156,29 @@ def _random_pairs(ctx, n):
     return {"rs": cases}, {"rs": meta}, {"rs": test}
 
 
+# ---------------------------------------------------------------- L1 (b'): large entries, nearly parallel rows (F-C16-2)
+def _large_pairs(ctx, n):
+    """model vs SVD code on the large-entry family.  Three facts per case: the Coq class predicate equals the harness's;
+    the exact model equals the harness's exact (Fraction) oracle -- also inside the class; outside the class
+    (max |entry| <= 300) the model equals the float SVD code as everywhere else.  A disagreement model/code INSIDE the
+    class is the known finding F-C16-2 (counted, reported by the L2 stage), not an L1 disagreement."""
+    rng = ctx.rng
+    cases, meta = [], []
+    for _ in range(n):
+        A, B, c, mode = D.gen_large_pair(rng)
+        svd = _svd(_mat(A, c), _mat(B, c))
+        exact = D.same_rowspace(A, B, c)
+        w = D.in_large_entry_class(A, B)
+        cases.append(f"({vlib.zlistlist(A)}, {vlib.zlistlist(B)}, {boollit(exact)}, {boollit(svd)}, {boollit(w)})")
+        meta.append(("rowspace-large", A, B, mode, {"svd": svd, "exact": exact, "in_class": w}))
+        ctx.count({"op": "same_nonzero_singular_vectors (large)", "A": A, "B": B, "svd": svd, "exact": exact, "in_class": w},
+                  svd != exact or (exact and A != B), f"rsl{A}{B}",
+                  f"rowspace-large-{mode}-{'class' if w else 'outside'}-{'deviates' if svd != exact else 'agrees'}")
+    test = ("fun c : list (list Z) * list (list Z) * bool * bool * bool => match c with (A, B, ex, sv, w) => "
+            "Bool.eqb (large_entries_float_tolerance A B) w && Bool.eqb (rowspace_eqb A B) ex && (w || Bool.eqb (rowspace_eqb A B) sv) end")
+    return {"rsl": cases}, {"rsl": meta}, {"rsl": test}
+
+
 # ---------------------------------------------------------------- L1 (c,d): Template.matches and the checks
 def _match_cases(ctx, n):
     from snaxc.ir.dart.scheduler import is_memory_flexible_enough, is_output_channel_stationary, is_pure_output_stationary
@@ -234,6 +260,8 @@ def correspondence(ctx):
     cases, meta, tests = _random_pairs(ctx, ctx.n(400, 6000))
     c2, m2, t2 = _match_cases(ctx, ctx.n(150, 3000))
     cases.update(c2), meta.update(m2), tests.update(t2)
+    c4, m4, t4 = _large_pairs(ctx, ctx.n(200, 3000))
+    cases.update(c4), meta.update(m4), tests.update(t4)
     c3, m3, t3 = _fits_cases(ctx, ctx.n(120, 2000))
     cases.update(c3), meta.update(m3), tests.update(t3)
     dis += _run_cases("c16", "From Snax Require Import Base.Prelude Model.C03Schedule Model.C16Matcher Model.C16Fits.", cases, meta, tests,
@@ -377,7 +405,27 @@ def search(ctx, deep=False):
         _, _, cdesc = D.gen_checks(rng, len(sp))
         fails += check_predicates(tp, sp, cdesc)
         ctx.count({"L2": "predicates", "template": tp, "schedule": sp, **cdesc}, True, f"l2q{tp}{sp}{cdesc}", "L2-predicate")
+    for i in range(ctx.n(300, 4000) * (2 if deep else 1)):
+        A, B, c, mode = D.gen_large_pair(rng)
+        f = check_large_pair(A, B, c)
+        fails += f
+        ctx.count({"L2": "large-pair", "A": A, "B": B}, bool(f), f"l2L{A}{B}", f"L2-large-{mode}-{'deviates' if f else 'agrees'}")
     return _dedup(fails)
+
+
+LARGE_CLASS = "large_entries_float_tolerance"
+
+
+def check_large_pair(A, B, c):
+    """the matcher's comparison against the exact row-space oracle on one pair; a deviation is classified with the
+    same decidable predicate as the theorem side (Coq large_entries_float_tolerance, tied by L1 'rsl')"""
+    svd = _svd(_mat(A, c), _mat(B, c))
+    exact = D.same_rowspace(A, B, c)
+    if svd == exact:
+        return []
+    return [{"what": "same_nonzero_singular_vectors_wrong", "klass": LARGE_CLASS if D.in_large_entry_class(A, B) else None,
+             "A": A, "B": B, "ncols": c, "detail": {"implementation": svd, "exact_rowspace": exact,
+                                                    "max_abs_entry": max(abs(x) for M in (A, B) for r in M for x in r)}}]
 
 
 def check_predicates(tp, sp, cdesc):
@@ -428,6 +476,9 @@ def _plain_in(x):
 
 def replay_known(ctx, entry):
     w = entry["witness"]
+    if entry["class"] == LARGE_CLASS:   # F-C16-2: the float comparison accepts a pair the exact oracle rejects
+        fails = check_large_pair(w["A"], w["B"], w["ncols"])
+        return any(f["klass"] == LARGE_CLASS for f in fails)
     fails, _ = check_case(_plain_in(w["template"]), _plain_in(w["schedule"]), w["checks"])
     return any(f["klass"] == entry["class"] for f in fails)
 
@@ -437,6 +488,12 @@ def replay(ctx, obj):
     if not f:
         print("no failing input recorded; broken obligations:", obj.get("no_longer_checks"))
         return 1
+    if "A" in f and "B" in f:
+        print("A:", f["A"], "B:", f["B"])
+        res = check_large_pair(f["A"], f["B"], f["ncols"])
+        for r in res:
+            print("FAIL", r["what"], "class:", r["klass"], r["detail"])
+        return 1 if res else 0
     if "layers" in f:
         print("layers:", f["layers"])
         res = check_pass_fits(f["layers"])
